@@ -61,7 +61,8 @@ class Projection:
         curves = [bezier]
         curves.append(Derivate(curves[0]))
         curves.append(Derivate(curves[1]))
-        tparams = np.linspace(umin, umax, 5)
+        # Newton only converges near a root: curved pieces need denser starts
+        tparams = np.linspace(umin, umax, max(5, 4 * bezier.degree + 1))
         tvalues = set((umin, umax))
         for tparam in tparams:
             newt = Projection.__newton_point_on_curve(point, curves, tparam)
